@@ -220,6 +220,12 @@ def rule_dispatch(col, configs):
                 col.bad(R, fn_name, "missing: %s" % e, "")
                 continue
             got = decimal_backends(f, interesting)
+            if not got:
+                # dispatch extracted into a helper of the same crate: read the unique callee that holds the back-ends
+                hs = {h.short: h for _b, c, _a, _d, _t in f.calls() for h in facts.by_short.get(callee_name(c), [])
+                      if h.crate == f.crate and h.short != f.short and any(callee_name(c2).endswith(interesting) for _b2, c2, _a2, _d2, _t2 in h.calls())}
+                if len(hs) == 1:
+                    got = decimal_backends(list(hs.values())[0], interesting)
             family = "compact" if n.startswith("compact") else "default"
             key = (family, fn_name)
             if key not in ref:
